@@ -17,11 +17,14 @@ KEY_ALPHA = {
     "intc": [-1, -2, None],
     "bool": [True, False, None],
     "date": [D1, D2, None],
+    "obj": [1, "1", None],        # mixed kinds: an object-dtype key column (hashability validation path)
 }
 # table layouts: (left column order, right column order); 'k*' are key columns, others payload
 CONFIGS = {
     "std": {"lpay": ["lp"], "rpay": ["rp"], "lkey_first": True, "rkey_name_same": True},
     "wide": {"lpay": ["lp", "lq"], "rpay": [], "lkey_first": False, "rkey_name_same": False},
+    # look-alike decoy columns ('K0' before the real key 'k0'): a key given by NAME means the column stored under exactly that name
+    "decoy": {"lpay": ["lp"], "rpay": ["rp"], "lkey_first": True, "rkey_name_same": True, "decoy": True},
 }
 FORMS = ("name", "column", "external")
 
@@ -54,6 +57,9 @@ def build_side(side, keys, nkeys, config, form, variant=None):
     kcols = [(knames[j], [kt[j] for kt in keys]) for j in range(nkeys)]
     if form == "external":
         cols = pays if pays else [("only", [base + i for i in range(n)])]
+    elif cfg.get("decoy"):
+        decoys = [(knames[j].upper(), [kt[j] for kt in reversed(keys)]) for j in range(nkeys)]      # same kind, other row order
+        cols = decoys + kcols + pays
     elif (side == "L" and cfg["lkey_first"]) or side == "R":
         cols = kcols + pays
     else:
@@ -167,7 +173,7 @@ def py_repro(lcols, rcols, lkeys, rkeys, nkeys, form, method, expect):
         ro = ron[0] if nkeys == 1 else "[" + ", ".join(ron) + "]"
     else:
         ln = [nm for nm, _ in lcols if nm.startswith("k")]
-        rn = [nm for nm, _ in rcols if nm[0] in "kj"]
+        rn = [nm for nm, _ in rcols if nm[0] in "kj"]     # (decoy columns are upper-case and not key names)
         lo = repr(ln[0] if nkeys == 1 else ln)
         ro = repr(rn[0] if nkeys == 1 else rn)
     return ("from serif import Table, Vector\nfrom datetime import date\n"
@@ -182,6 +188,11 @@ def plan_units(thorough):
     if not thorough:
         for kind in KEY_ALPHA:
             for config in CONFIGS:
+                if config == "decoy":
+                    if kind in ("int", "str"):
+                        for nl in range(0, 3):
+                            units.append((kind, 1, config, ("name", "column"), nl, 2))
+                    continue
                 for nl in range(0, 4):
                     units.append((kind, 1, config, FORMS, nl, 3))
         for kind in ("int", "str"):
@@ -190,6 +201,10 @@ def plan_units(thorough):
     else:
         for kind in KEY_ALPHA:
             for config in CONFIGS:
+                if config == "decoy":
+                    for nl in range(0, 4):
+                        units.append((kind, 1, config, ("name", "column"), nl, 3))
+                    continue
                 for nl in range(0, 5):
                     units.append((kind, 1, config, FORMS, nl, 4))
         for kind in ("int", "str", "intc"):
@@ -213,6 +228,12 @@ def all_dtype_rejected(lkeys, rkeys, nkeys):
         rn = all(x is None for x in rcol)
         if ln != rn:
             return True
+        if not ln:
+            from .models import join_kinds
+            lk = join_kinds(type(x) for x in lcol if x is not None)
+            rk = join_kinds(type(x) for x in rcol if x is not None)
+            if lk is not rk:
+                return True      # e.g. [1] against [1, '1']: int versus object - refused by the dtype-agreement validation
     return False
 
 
@@ -332,3 +353,56 @@ def hist_one(agg, h, kind, form, methods, lkeys, rkeys, side, idx, new, path):
                     agg.violation(V(f"{method}.after-write.{path}", "earlier-result-changed", case, want1, result_rows(res1)))
             except Exception as e:
                 agg.violation(V(f"{method}.after-write.{path}", "raises-" + type(e).__name__, case, None, repr(e)[:120]))
+
+
+# ------------------------------------------------------------------------------------------
+# larger, structured inputs (size thresholds: hash-set/dict internals change behaviour at 8+ entries)
+# ------------------------------------------------------------------------------------------
+def big_cases():
+    """(left keys, right keys) as lists of 1-tuples of ints; a designated finite family, enumerated completely"""
+    for n in (9, 10, 12):
+        rk = [(x,) for x in range(n)]
+        for i, j in itertools.combinations(range(n), 2):
+            matched = [(x,) for x in range(n) if x not in (i, j)]
+            yield matched, rk                              # right rows i and j stay unmatched
+            yield matched[::-1] + [matched[0]], rk         # other order, one repeated left key
+        for i in range(n):
+            yield [(x,) for x in range(n) if x != i] + [(n + 5,)], rk      # one unmatched on each side
+    for n in (9, 11):
+        yield [(k % 4,) for k in range(n)], [(k % 3,) for k in range(n)]
+        yield [(k % 3,) for k in range(4)], [((k * 5) % 7,) for k in range(n)]
+        yield [(None if k % 4 == 0 else k % 3,) for k in range(n)], [(None if k % 5 == 0 else k % 4,) for k in range(n)]
+
+
+def run_big_unit(unit, methods):
+    _, part = unit
+    agg = Agg()
+    h = hashlib.sha256()
+    for ci, (lkeys, rkeys) in enumerate(big_cases()):
+        if ci % 4 != part:
+            continue
+        agg.states += 1
+        agg.nontrivial += 1
+        for method in methods:
+            for form in ("name", "external"):
+                case = describe_case("int", 1, "std", form, lkeys, rkeys, method, "many_to_many")
+                case["family"] = "larger structured inputs"
+                try:
+                    L, lon, lcols = build_side("L", lkeys, 1, "std", form, variant=ci)
+                    R, ron, rcols = build_side("R", rkeys, 1, "std", form, variant=ci // 3)
+                    res = getattr(L, method)(R, left_on=lon, right_on=ron, expect="many_to_many")
+                except Exception as e:
+                    agg.violation(V(f"{method}.{form}.big", "raises-" + type(e).__name__, case, None, repr(e)[:100]))
+                    continue
+                agg.evals += 1; agg.transitions += 1; agg.compared += 1
+                want = REF[method](lcols, rcols, lkeys, rkeys)
+                got = result_rows(res)
+                digest_update(h, got)
+                sym = classify_rows(got, want)
+                if sym:
+                    agg.violation(V(f"{method}.{form}.big", sym, case, want, got))
+                else:
+                    agg.outcomes["big-agree"] += 1
+    agg.digests[repr(unit) + repr(methods)] = h.hexdigest()
+    agg.sample({"family": "larger structured inputs", "sizes": [9, 10, 11, 12]})
+    return agg
